@@ -20,7 +20,7 @@ Step ==
      /\ y' = CASE e.ev = "Reset"            -> YInit(e.n, e.limit, e.maxInFlight)
                [] e.ev = "SysConnect"       -> YConnect(y, e.k, e.key)
                [] e.ev = "SysArrive"        -> YArrive(y, e.k, e.key)
-               [] e.ev = "SysTransportDrop" -> IF e.side = "s" THEN YServerDrop(y, e.k) ELSE y
+               [] e.ev = "SysTransportDrop" -> IF e.side = "s" THEN YServerDrop(y, e.k) ELSE YClientGone(y, e.k)
                [] e.ev = "SysCall"          -> YCall(y, e.c, e.k, e.dl)
                [] e.ev = "SysWireOut"       -> IF e.side = "c" /\ e.kind = "req" /\ e.ok THEN YSend(y, e.c, e.k, e.id)
                                                ELSE IF e.side = "s" /\ e.ok THEN YServerOut(y, e.k, e.id)
